@@ -1,1 +1,2 @@
 import Audit.C11
+import Audit.C10
